@@ -30,7 +30,9 @@ use crate::api_impl::owner_updater::StatusMessage;
 use crate::grin_keychain::{BlindingFactor, Identifier, Keychain, SwitchCommitmentType};
 use crate::internal::{keys, scan, selection, tx, updater};
 use crate::slate::{PaymentInfo, Slate, SlateState};
-use crate::types::{AcctPathMapping, NodeClient, TxLogEntry, WalletBackend, WalletInfo};
+use crate::types::{
+	AcctPathMapping, NodeClient, OutputStatus, TxLogEntry, WalletBackend, WalletInfo,
+};
 use crate::Error;
 use crate::{
 	address,
@@ -1331,7 +1333,18 @@ where
 			continue;
 		}
 		if tx.amount_debited != 0 && tx.amount_credited != 0 {
-			continue;
+			// confirmed through its change outputs, as long as one of them still refers
+			// to this entry (a change output re-spent before it confirmed no longer does)
+			wallet_lock!(wallet_inst, w);
+			let id = tx.id;
+			let change_pending = w.iter().any(|o| {
+				o.root_key_id == parent_key_id
+					&& o.tx_log_entry == Some(id)
+					&& o.status == OutputStatus::Unconfirmed
+			});
+			if change_pending {
+				continue;
+			}
 		}
 		if let Some(e) = tx.kernel_excess {
 			let res = client.get_kernel(&e, tx.kernel_lookup_min_height, Some(height));
